@@ -551,7 +551,122 @@ func runIDToken(args []string) error {
 			return rerr
 		}
 	}
-	fmt.Fprintf(os.Stderr, "idtoken: %d lattice points through the callback handler, %d deployment configurations\n", count, len(order))
+	// Two login attempts whose callbacks overlap: attempt A's token response carries an ID token that is valid in every respect
+	// except that its nonce is attempt B's; B is honest. A's callback is suspended at its k-th configuration-accessor call
+	// (k = 1 .. all of them) or while its code is being redeemed, B's callback runs to completion there, then A resumes.
+	// Whatever k: A must be refused and B accepted (two ordinary lattice lines each, so the model is compared as well).
+	pairs := 0
+	synctest.Run(func() {
+		s, err := newStack(stackOpts{maxLifetime: 10 * time.Hour, audiences: []string{"trusted-aud"}, useSecret: true, updAtomic: true})
+		if err != nil {
+			rerr = err
+			return
+		}
+		defer s.close()
+		base := idtBaseline()
+		type attempt struct {
+			params url.Values
+			lc     string
+			nonce  string
+			code   string
+		}
+		start := func(sid string) attempt {
+			req := httptest.NewRequest("GET", "http://wonderwall/oauth2/login", nil)
+			navHeaders(req)
+			rec := s.serveMain(req)
+			loc, _ := url.Parse(rec.Header().Get("Location"))
+			a := attempt{params: loc.Query()}
+			a.lc, _ = cookieValue(rec, cookie.Login)
+			a.nonce = a.params.Get("nonce")
+			a.code = s.idp.authorize(a.params, sid, "")
+			return a
+		}
+		callback := func(a attempt) (accepted bool, status int) {
+			q := url.Values{"code": {a.code}, "state": {a.params.Get("state")}}
+			cb := httptest.NewRequest("GET", "http://wonderwall/oauth2/callback?"+q.Encode(), nil)
+			navHeaders(cb)
+			cb.AddCookie(&http.Cookie{Name: cookie.Login, Value: a.lc})
+			cb.AddCookie(&http.Cookie{Name: cookie.Retry, Value: "9"})
+			rec := s.serveMain(cb)
+			sc, ok := cookieValue(rec, cookie.Session)
+			return rec.Code == http.StatusFound && ok && sc != "", rec.Code
+		}
+		full, keysModel, _, _ := idtKeySet(base, s.oidc.p, false)
+		s.idp.jwksGet = func() jwk.Set { return full }
+		s.idp.jwksRefresh = func() jwk.Set { return full }
+		run := func(k int) (calls int, accA, accB bool, where string) {
+			time.Sleep(time.Second)
+			A, B := start("sid-a"), start("sid-b")
+			now := time.Now()
+			rawA, tokA := idtMint(base, now, B.nonce) // A's token carries B's nonce
+			rawB, tokB := idtMint(base, now, B.nonce)
+			s.idp.rawIDToken = func(r *authzRequest) (any, bool) {
+				if r.Params.Get("state") == A.params.Get("state") {
+					return rawA, true
+				}
+				return rawB, true
+			}
+			n, inB, doneB := 0, false, false
+			hook := func(name string) {
+				if inB || doneB {
+					return
+				}
+				n++
+				if n == k {
+					inB, where = true, name
+					accB, _ = callback(B)
+					inB, doneB = false, true
+				}
+			}
+			s.oidc.p.yield, s.oidc.c.yield = hook, hook
+			accA, _ = callback(A)
+			s.oidc.p.yield, s.oidc.c.yield = nil, nil
+			if !doneB {
+				accB, _ = callback(B)
+				where = "after"
+			}
+			for _, x := range []struct {
+				a   attempt
+				tok string
+				acc bool
+				nm  string
+			}{{A, tokA, accA, "wrong"}, {B, tokB, accB, "ok"}} {
+				fmt.Fprintf(win, "idtok %s %s %s %d %d %d | %s | %s | %s %s %d | %s\n", hx(idpIssuer), hx(idtClientID), hx("trusted-aud"), 1, 0, bi(*expStrict),
+					keysModel, x.tok, hx(x.a.nonce), hx(x.a.params.Get("acr_values")), now.UnixNano(), "ok")
+				fmt.Fprintln(wimpl, bi(x.acc))
+				p := base
+				p.nonce = x.nm
+				ob, _ := json.Marshal(map[string]any{"point": fmt.Sprintf("overlapping callbacks: other attempt runs at accessor call %d (%s) %+v", k, where, p), "accepted": x.acc, "error": "", "status": 0,
+					"session_cookie": x.acc, "session_usable": x.acc, "store_keys_before": 0, "store_keys_after": bi(x.acc), "overlap": true,
+					"sig": p.sig, "keys": p.keys, "iss": p.iss, "aud": p.aud, "exp": p.exp, "iat": p.iat, "nbf": p.nbf, "nonce": x.nm, "sub": p.sub,
+					"sid": p.sid, "sidreq": true, "acr": p.acr, "acrcfg": "", "shape": "ok", "jwks": "fresh", "now_off_ms": int64(1000 + k)})
+				wobs.Write(ob)
+				wobs.WriteByte('\n')
+				count++
+			}
+			// empty store for the next pair
+			s.gmem.mu.Lock()
+			var ks []string
+			for key := range s.gmem.keys {
+				ks = append(ks, key)
+			}
+			s.gmem.mu.Unlock()
+			for _, key := range ks {
+				s.gmem.inner.Delete(context.Background(), key)
+			}
+			s.logs.reset()
+			return n, accA, accB, where
+		}
+		total, _, _, _ := run(0) // dry run: counts A's accessor calls, B runs afterwards
+		for k := 1; k <= total; k++ {
+			run(k)
+			pairs++
+		}
+	})
+	if rerr != nil {
+		return rerr
+	}
+	fmt.Fprintf(os.Stderr, "idtoken: %d lattice points through the callback handler, %d deployment configurations, %d overlapping-callback pairs\n", count, len(order), pairs)
 	return nil
 }
 
